@@ -1,8 +1,8 @@
 package rules
 
 import (
-	"go/token"
 	"fmt"
+	"go/token"
 	"go/types"
 	"sort"
 	"strings"
@@ -982,5 +982,261 @@ func (c *Ctx) SIBARM(rule string, pkgs ...string) []report.Obligation {
 		}
 	}
 	out = append(out, report.Obligation{Rule: rule, Key: "inventory", Status: report.Discharged, Why: fmt.Sprintf("%d type switches with several scalar arms and a parser in %v", n, pkgs)})
+	return out
+}
+
+// KEYDFLT (C09, C11): two entries of a unique list are the same entry when their keys are equal, and the keys are
+// computed before defaults are applied. An attribute that takes part in the key and has a documented default
+// (the transform.defaultValues handler registered for the items of the same list stores a constant under it when
+// it is absent) must therefore enter the key with that default when it is absent: read with the presence flag and
+// replaced by the same constant. Otherwise the implicit and the explicit spelling of one entry get different keys,
+// both survive the merge, and the defaults then make them identical: the entry is there twice.
+func (c *Ctx) KEYDFLT(rule string) []report.Obligation {
+	var out []report.Obligation
+	uniq := c.table(rule, TUnique, &out)
+	dfl := c.table(rule, TDefaults, &out)
+	if uniq == nil || dfl == nil {
+		return out
+	}
+	n := 0
+	for _, ur := range uniq.Rows {
+		if ur.Fn == nil {
+			continue
+		}
+		var dr *tab.Row
+		for i := range dfl.Rows {
+			if p := dfl.Rows[i].Pattern; p == ur.Pattern+".*" || p == ur.Pattern+".[]" {
+				dr = &dfl.Rows[i]
+			}
+		}
+		if dr == nil || dr.Fn == nil {
+			continue
+		}
+		// the defaults of the item: v[K] = const on the absent edge
+		defaults := map[string]string{}
+		for _, b := range dr.Fn.Blocks {
+			for _, in := range b.Instrs {
+				mu, ok := in.(*ssa.MapUpdate)
+				if !ok {
+					continue
+				}
+				k, isK := prog.ConstString(mu.Key)
+				v := mu.Value
+				if mi, isMI := v.(*ssa.MakeInterface); isMI {
+					v = mi.X
+				}
+				d, isD := prog.ConstString(v)
+				if isK && isD {
+					defaults[k] = d
+				}
+			}
+		}
+		// ... or through a set-if-absent helper of the package: setDefault(m, "protocol", "tcp")
+		for _, cs := range callSites(dr.Fn, func(com *ssa.CallCommon) bool {
+			cal := com.StaticCallee()
+			return cal != nil && c.P.InModule(cal) && strings.HasPrefix(c.P.FuncID(cal), "transform.") && cal.Blocks != nil
+		}) {
+			h := cs.Common().StaticCallee()
+			for _, hb := range h.Blocks {
+				for _, hin := range hb.Instrs {
+					mu, ok := hin.(*ssa.MapUpdate)
+					if !ok {
+						continue
+					}
+					ki, vi := -1, -1
+					for i, pa := range h.Params {
+						if mu.Key == ssa.Value(pa) {
+							ki = i
+						}
+						if mu.Value == ssa.Value(pa) {
+							vi = i
+						}
+					}
+					if ki < 0 || vi < 0 || ki >= len(cs.Common().Args) || vi >= len(cs.Common().Args) {
+						continue
+					}
+					k, isK := prog.ConstString(cs.Common().Args[ki])
+					v := cs.Common().Args[vi]
+					if mi, isMI := v.(*ssa.MakeInterface); isMI {
+						v = mi.X
+					}
+					if d, isD := prog.ConstString(v); isK && isD {
+						defaults[k] = d
+					}
+				}
+			}
+		}
+		// what the indexer (and the helpers it calls) reads
+		fns := []*ssa.Function{ur.Fn}
+		for _, cs := range callSites(ur.Fn, func(com *ssa.CallCommon) bool {
+			cal := com.StaticCallee()
+			return cal != nil && c.P.InModule(cal) && strings.HasPrefix(c.P.FuncID(cal), "override.")
+		}) {
+			fns = append(fns, cs.Common().StaticCallee())
+		}
+		var keys []string
+		for k := range defaults {
+			keys = append(keys, k)
+		}
+		sort.Strings(keys)
+		for _, k := range keys {
+			d := defaults[k]
+			read, withDefault := false, false
+			for _, g := range fns {
+				for _, b := range g.Blocks {
+					for _, in := range b.Instrs {
+						switch x := in.(type) {
+						case *ssa.Lookup:
+							if kk, _ := prog.ConstString(x.Index); kk != k {
+								continue
+							}
+							read = true
+							if !x.CommaOk {
+								continue
+							}
+							// the value used is phi(looked-up value, the default)
+							for _, r := range *x.Referrers() {
+								ex, isE := r.(*ssa.Extract)
+								if !isE || ex.Index != 0 {
+									continue
+								}
+								for _, u := range *ex.Referrers() {
+									if phi, isPhi := u.(*ssa.Phi); isPhi {
+										for _, e := range phi.Edges {
+											if mi, isMI := e.(*ssa.MakeInterface); isMI {
+												e = mi.X
+											}
+											if dv, isC := prog.ConstString(e); isC && dv == d {
+												withDefault = true
+											}
+										}
+									}
+								}
+							}
+						case *ssa.Call:
+							// attributeOrDefault(item, "protocol", "tcp")
+							hasK, hasD := false, false
+							for _, a := range x.Call.Args {
+								if mi, isMI := a.(*ssa.MakeInterface); isMI {
+									a = mi.X
+								}
+								if sv, isC := prog.ConstString(a); isC {
+									if sv == k {
+										hasK = true
+									} else if sv == d {
+										hasD = true
+									}
+								}
+							}
+							if hasK {
+								read = true
+								if hasD {
+									withDefault = true
+								}
+							}
+						}
+					}
+				}
+			}
+			if !read {
+				continue // the attribute takes no part in the key
+			}
+			n++
+			out = append(out, verdict(withDefault, rule, TUnique+" :: "+ur.Pattern+" key uses the default of "+k, ur.Pos,
+				fmt.Sprintf("%s reads %q with the presence flag and falls back to %q, the default %s stores", ur.Func, k, d, dr.Func),
+				fmt.Sprintf("%s puts %q into the key as written, but %s gives it the default %q when absent: an entry that leaves it implicit and one that spells it out get different keys and both survive the merge", ur.Func, k, dr.Func, d)))
+		}
+	}
+	if n == 0 {
+		out = append(out, bad(rule, TUnique+" :: keys over defaulted attributes", "", "no indexer reads an attribute that has a default: the rule sees nothing"))
+	}
+	return out
+}
+
+// CHKCAST (C10): the validation checks look at typed values (`external` must be the boolean true to conflict with
+// creation parameters). A value written as `${VAR}` is a string until the interpolation cast table converts it, so
+// every attribute a check of validation.checks tests as a boolean / number (type assertion, or comparison with a
+// typed constant, on the value looked up under a constant key) has a cast row matching <pattern of the check>.<key>.
+// Without the row the check sees a string, lets the model pass, and the decoder then converts the string: a model
+// the checks were meant to refuse is loaded.
+func (c *Ctx) CHKCAST(rule string) []report.Obligation {
+	var out []report.Obligation
+	checks := c.table(rule, TChecks, &out)
+	cast := c.table(rule, TCast, &out)
+	if checks == nil || cast == nil {
+		return out
+	}
+	n := 0
+	for _, r := range checks.Rows {
+		if r.Fn == nil {
+			continue
+		}
+		fns := []*ssa.Function{r.Fn}
+		seen := map[*ssa.Function]bool{r.Fn: true}
+		for i := 0; i < len(fns) && i < 12; i++ {
+			for _, cs := range callSites(fns[i], func(com *ssa.CallCommon) bool {
+				cal := com.StaticCallee()
+				return cal != nil && c.P.InModule(cal) && strings.HasPrefix(c.P.FuncID(cal), "validation.")
+			}) {
+				if g := cs.Common().StaticCallee(); !seen[g] {
+					seen[g] = true
+					fns = append(fns, g)
+				}
+			}
+		}
+		typed := map[string]string{} // key -> how it is tested
+		for _, g := range fns {
+			for _, b := range g.Blocks {
+				for _, in := range b.Instrs {
+					switch x := in.(type) {
+					case *ssa.TypeAssert:
+						bt, isB := x.AssertedType.Underlying().(*types.Basic)
+						if !isB || bt.Info()&(types.IsBoolean|types.IsNumeric) == 0 {
+							continue
+						}
+						if lk := lookupOf(x.X, 3); lk != nil {
+							if k, isC := prog.ConstString(lk.Index); isC {
+								typed[k] = "asserted to " + bt.Name()
+							}
+						}
+					case *ssa.BinOp:
+						if x.Op != token.EQL && x.Op != token.NEQ {
+							continue
+						}
+						for _, side := range [][2]ssa.Value{{x.X, x.Y}, {x.Y, x.X}} {
+							mi, isMI := side[1].(*ssa.MakeInterface)
+							if !isMI {
+								continue
+							}
+							if _, isBool := constBool(mi.X); !isBool {
+								continue
+							}
+							if lk := lookupOf(side[0], 3); lk != nil {
+								if k, isC := prog.ConstString(lk.Index); isC {
+									typed[k] = "compared with a boolean constant"
+								}
+							}
+						}
+					}
+				}
+			}
+		}
+		var keys []string
+		for k := range typed {
+			keys = append(keys, k)
+		}
+		sort.Strings(keys)
+		for _, k := range keys {
+			n++
+			path := r.Pattern + "." + k
+			row := c.findRow(cast, path)
+			out = append(out, verdict(row != nil, rule, TChecks+" :: "+path+" is typed before it is checked", r.Pos,
+				fmt.Sprintf("%s is %s by the check; cast row present", k, typed[k]),
+				fmt.Sprintf("the check %s tests %q as a typed value (%s) but no row of the interpolation cast table matches %s: written as `${VAR}` it is still a string when the check runs, the check lets it pass, and the decoder converts it afterwards", r.Func, k, typed[k], path)))
+		}
+	}
+	if n == 0 {
+		out = append(out, bad(rule, TChecks+" :: typed attributes", "", "no check tests a looked-up attribute as a typed value: the rule sees nothing"))
+	}
 	return out
 }
